@@ -374,6 +374,11 @@ def confirm(scn, params, prefix, *, stmt_mask=None, horizon=20000) -> Result:
     """re-execute a violating schedule twice; both runs must agree (DESIGN 1.4)"""
     a = replay(scn, params, prefix, stmt_mask=stmt_mask, horizon=horizon)
     b = replay(scn, params, prefix, stmt_mask=stmt_mask, horizon=horizon)
-    if a.violation != b.violation or a.log != b.log:
+    import re as _re
+
+    def _norm(x):
+        return _re.sub(r"0x[0-9a-fA-F]{6,}", "0x?", json.dumps(x, default=repr))
+
+    if _norm(a.violation) != _norm(b.violation) or _norm(a.log) != _norm(b.log):
         raise InternalError("nondeterministic replay of a violating schedule:\n" + json.dumps([a.violation, b.violation])[:2000])
     return a
